@@ -35,6 +35,7 @@ type Contract struct {
 	File     string
 	Line     int
 	Lets     []*LetDef
+	Sums     bool // ghost sums UT/UTA are maintained while verifying this function
 }
 
 type LetDef struct {
@@ -64,7 +65,7 @@ type SpecDB struct {
 }
 
 var clauseKeywords = map[string]bool{"func": true, "loop": true, "requires": true, "ensures": true, "modifies": true,
-	"sweep": true, "modular": true, "trusted": true, "invariant": true, "pure": true, "unroll": true, "names": true, "let": true, "end": true}
+	"sweep": true, "modular": true, "trusted": true, "invariant": true, "pure": true, "unroll": true, "names": true, "let": true, "end": true, "sums": true}
 
 func ParseSpecs(lines []SpecLine) *SpecDB {
 	db := &SpecDB{Contracts: map[string]*Contract{}, Pures: map[string]*PureDef{}}
@@ -180,6 +181,8 @@ func ParseSpecs(lines []SpecLine) *SpecDB {
 			}
 		case "sweep":
 			cur.Sweep = append(cur.Sweep, parseProps(it.rest)...)
+		case "sums":
+			cur.Sums = true
 		case "modular":
 			cur.Modular = true
 		case "trusted":
